@@ -25,7 +25,7 @@ int main(void)
 	for (int impl = 0; impl < 3; impl++) {
 		qb_map_t *m = impl == 0 ? qb_hashtable_create(8) : impl == 1 ? qb_skiplist_create() : qb_trie_create();
 		deleted = freed = 0;
-		qb_map_notify_add(m, NULL, cb, QB_MAP_NOTIFY_DELETED | QB_MAP_NOTIFY_FREE, NULL);
+		qb_map_notify_add(m, NULL, cb, QB_MAP_NOTIFY_DELETED | QB_MAP_NOTIFY_FREE | (impl == 2 ? QB_MAP_NOTIFY_RECURSIVE : 0), NULL);
 		qb_map_put(m, "a", &val);
 		qb_map_foreach(m, stop, NULL);     /* abandoned after the first entry */
 		qb_map_destroy(m);
